@@ -527,6 +527,11 @@ def make_corpus_tree(root):
         with open(os.path.join(root, n), "w") as f:
             f.write(str(900 + k))
     os.symlink("/nonexistent/c33/abs", os.path.join(root, "dd", "dangling"))
+    os.makedirs(os.path.join(root, "ld", "sub"))
+    for k, n in enumerate(["ld/sub/f.txt", "ld/e.txt"]):
+        with open(os.path.join(root, n), "w") as f:
+            f.write(str(950 + k))
+    os.symlink("sub", os.path.join(root, "ld", "slnk"))
 
 
 CORPUS = [
@@ -546,6 +551,11 @@ CORPUS = [
     ("doins", "7", ["-r", "./hd/./"], {"insdesttree": "/usr/share/foo"}, 0o022, []),
     ("doins", "7", ["-r", "hd//", "hd/sub/."], {"insdesttree": "/usr/share/foo"}, 0o022, []),
     ("dodoc", "7", ["-r", "hd/sub/."], {"docdesttree": ""}, 0o022, []),
+    # one destination reached as a directory (the walked symlink argument) and as a symlink (inside "ld/."):
+    # refused by the code, by cp -r and by every implementation; no prescribed outcome
+    ("doins", "7", ["-r", "ld/slnk", "ld/."], {"insdesttree": "/usr/share/foo"}, 0o022, []),
+    ("doins", "7", ["-r", "ld", "ld"], {"insdesttree": "/usr/share/foo"}, 0o022, []),
+    ("doins", "7", ["-r", "ld"], {"insdesttree": "/usr/share/foo"}, 0o022, []),
     ("dohtml", "6", ["-r", "hd/."], {"docdesttree": ""}, 0o022, []),
     ("dodoc", "7", ["a.txt"], {"docdesttree": ""}, 0o027, []),
     ("dodoc", "3", ["-r", "hd"], {"docdesttree": ""}, 0o022, []),
